@@ -71,8 +71,12 @@ func genCase(t *rapid.T, withInvalid bool) *Case {
 		d := rapid.SampledFrom([]int{5, 20, 20}).Draw(t, "ddelay")
 		c.StartDown = []int{a}
 		c.Init = Options{MEs: []ME{{Name: 0, Eps: []int{a, b}, DMs: d}, {Name: 1, Eps: []int{b, perm[2]}}}, Default: rapid.IntRange(0, 1).Draw(t, "ddef")}
+		first := Op{K: "update", Opts: &Options{MEs: []ME{{Name: 0, Eps: []int{a, b}, DMs: d}, {Name: 1, Eps: []int{b, perm[2]}}}, Default: 0}, Flip: a + 1, Nth: rapid.IntRange(0, 3).Draw(t, "dwait")}
+		if rapid.Bool().Draw(t, "dquick") {
+			first = Op{K: "upquick", E: a, Nth: rapid.IntRange(0, 2).Draw(t, "dwaitq")}
+		}
 		c.Ops = []Op{
-			{K: "update", Opts: &Options{MEs: []ME{{Name: 0, Eps: []int{a, b}, DMs: d}, {Name: 1, Eps: []int{b, perm[2]}}}, Default: 0}, Flip: a + 1, Nth: rapid.IntRange(0, 3).Draw(t, "dwait")},
+			first,
 			{K: "update", Opts: &Options{MEs: []ME{{Name: 0, Eps: []int{b, perm[3]}, DMs: d}, {Name: 1, Eps: []int{b}}}, Default: 0}},
 			{K: "rpc", Ctx: 1}, {K: "rpc", Ctx: 0}, {K: "up", E: a}, {K: "rpc", Ctx: 2},
 		}
